@@ -341,7 +341,7 @@ func tuneProfile(p *Plan, r *Rng, thorough bool) {
 	case "C14":
 		// pointer-carrying components, GC faults at boundaries and inside moves
 		p.GCPermille = []int{100, 250, 400}[r.Intn(3)]
-		np := 1 + r.Intn(3)
+		np := 1 + r.Intn(4)
 		for i := 0; i < np && i < len(p.Types); i++ {
 			p.Types[len(p.Types)-1-i] = TypeSpec{Kind: "ptr", Late: r.Intn(5) == 0}
 		}
